@@ -175,6 +175,38 @@ CHECKS.update({
     ),
 })
 
+CHECKS.update({
+    "C13": dict(
+        category="model_checking",
+        text="TLC checks, over every item sequence up to a bound, that the position arithmetic shaped like parseMarkup / buildAttributesFromMarkers equals the provenance meaning "
+             "(an attribute covers exactly the output characters emitted between its open and close items, clipped to what survives the trim), text = items without markers, ranges "
+             "inside the text; every enumerated line is concretised (ASCII, 2/3/4-byte characters, layout inside brackets) and replayed on ParseMarkup (Text, attribute multiset, typed "
+             "properties, TextForAttribute); random long lines through ParseMarkup and through the runner (Line.Attributes) are trace-validated.",
+        design_ref="DESIGN.md section 6 (C13), appendices D, E",
+        note="<= 4 items after each of 4 starts over a 15 (thorough 24) item alphabet; same-name nesting, unclosed markers and ambiguous self-closing adjacency are not generated "
+             "(appendix D); decimal property values compared with a tolerance.",
+        technique="TLA+ equivalence of two formulations (TLC) + exhaustive enumeration replay + trace validation",
+    ),
+    "C14": dict(
+        category="model_checking",
+        text="TLC checks HistoryIndependent over all histories of <= 3 calls over 72 (136) lines including failing ones (the reset-less parser is caught); one reused LineParser against a "
+             "fresh one per call, and dialogue runs reaching the same lines after different prefixes, are validated by a trace specification requiring every result (text, attributes "
+             "incl. SourcePosition, TextForAttribute, error-ness) to equal the first one seen on a fresh parser.",
+        design_ref="DESIGN.md section 6 (C14)",
+        note="The code is compared against itself (fresh parser as reference), the specification states the requirement; absolute SourcePosition values are not pinned.",
+        technique="TLA+ history-independence invariant (TLC) + differential trace validation",
+    ),
+    "C15": dict(
+        category="model_checking",
+        text="The markup model extended with malformed item sequences, edge whitespace (incl. NBSP, U+3000) and unclosed / stray markers keeps RangesInsideText (TLC); every model line plus "
+             "token assemblies, marker-shaped fragments, mutated valid lines and random bytes incl. invalid UTF-8 run through ParseMarkup and TextForAttribute under recover with a watchdog, "
+             "each event judged by a trace specification (no panic, no timeout, ranges non-negative and inside the text, counted in characters).",
+        design_ref="DESIGN.md section 6 (C15)",
+        note="Model checking for the item grammar; for arbitrary bytes only the safety invariants are decidable (exploration: inputs <= 64 bytes, mutated lines <= 128).",
+        technique="TLA+ safety invariants (TLC) + trace validation of fuzzed inputs",
+    ),
+})
+
 NOT_YET = "check not built yet in this session (work in progress; see DESIGN.md build order)"
 
 
